@@ -463,6 +463,8 @@ def main():
     def minimal(r):
         scn = byid[r["id"]]
         def still(line):
+            if " new" in scn and " new" not in line:
+                return False                     # a connection that never starts is another scenario
             rl, _, _ = run_shard(exe, [line], 120)
             rr = [x for x in map(parse_res, rl) if x]
             return bool(rr) and (not rr[0]["hi"]) and not rr[0]["miss"]
